@@ -8,8 +8,10 @@ cell; entry is legal iff an independent check with the Rust primitive says the d
 """
 from __future__ import annotations
 
+import hashlib
 import json
 import os
+import pickle
 import struct
 
 from ipv8.messaging.payload_headers import GlobalTimeDistributionPayload
@@ -252,10 +254,13 @@ _THOROUGH = False
 _SEED = 0
 
 
-def _world(name: str, curve: str, seed: int):  # noqa: ANN202
+def _world(name: str, curve: str, seed: int, s_key=None):  # noqa: ANN001, ANN202
     w = simnet.World(("c01", name, curve, seed))
     ks = fixtures.rotate(seed, 4, curve)
     s_node = w.add_node("S", ks[0], curve=curve)
+    if s_key is not None:
+        from ipv8.peer import Peer  # noqa: PLC0415
+        s_node.my_peer = Peer(s_key, s_node.address)
     r_node = w.add_node("R", fixtures.rotate(seed + 5, 1)[0])
     s_ov = overlays.make(s_node, name)
     r_ov = overlays.make(r_node, name)
@@ -265,17 +270,108 @@ def _world(name: str, curve: str, seed: int):  # noqa: ANN202
     return w, s_node, r_node, s_ov, r_ov, ks
 
 
+COLD_HISTORIES = ("control", "key-bitflips", "key-halves", "other-mutations", "valid-poison-valid")
+
+
+def _cold_key(item: tuple, seed: int):  # noqa: ANN202
+    """A sender key that only ever exists inside the forked child that calls this."""
+    from ipv8.keyvault.crypto import default_eccrypto  # noqa: PLC0415
+    if item[2] == "curve25519":
+        tag = repr((item, seed)).encode()
+        return default_eccrypto.key_from_private_bin(b"LibNaCLSK:" + hashlib.sha256(b"crypt" + tag).digest()
+                                                     + hashlib.sha256(b"sign" + tag).digest())
+    return default_eccrypto.generate_key(item[2])    # legacy curves: fresh per run (no seed -> key constructor)
+
+
+def _cold_datagrams(item: tuple) -> tuple:
+    """Two valid datagrams of a sender living in ANOTHER process (forked child, exits at once): the calling process has
+    never parsed, cached or verified anything for that sender's key when the first datagram naming it arrives - as on
+    a real node. Process-wide state keyed by key material (parse caches, interned peers) is cold for it."""
+    rfd, wfd = os.pipe()
+    pid = os.fork()
+    if pid == 0:
+        code = 1
+        try:
+            os.close(rfd)
+            name, mid, curve = item[:3]
+            w, s_node, r_node, s_ov, r_ov, ks = _world(name, curve, _SEED, s_key=_cold_key(item, _SEED))
+            pair = (valid_datagram(s_ov, r_ov, mid), valid_datagram(s_ov, r_ov, mid))
+            with os.fdopen(wfd, "wb") as f:
+                pickle.dump(pair, f)
+            code = 0
+        finally:
+            os._exit(code)
+    os.close(wfd)
+    with os.fdopen(rfd, "rb") as f:
+        raw = f.read()
+    os.waitpid(pid, 0)
+    return pickle.loads(raw)  # noqa: S301
+
+
+def cold_history(hist: str, d: bytes, d_other: bytes, ctxt: dict):  # noqa: ANN201
+    """Datagrams delivered, in order, to a receiver for which the sender's key is cold; the last one is valid."""
+    n = len(d)
+    (klen,) = struct.unpack_from(">H", d, 23)
+    key_end = 25 + klen
+    siglen = ctxt["siglen"]
+    sig_start = n - siglen
+    key = d[25:key_end]
+    k2 = ctxt["k2"]
+    pub2 = k2.pub().key_to_bin()
+
+    def halves():  # noqa: ANN202
+        if len(pub2) != klen:
+            return
+        cuts = sorted({klen // 2, 42} & set(range(1, klen)))
+        for cut in cuts:
+            for lab, kp in ((f"theirs[:{cut}]+victims", pub2[:cut] + key[cut:]),
+                            (f"victims[:{cut}]+theirs", key[:cut] + pub2[cut:])):
+                if kp in (key, pub2):
+                    continue
+                body = d[:25] + kp + d[key_end:sig_start]
+                yield f"poison:key-halves:{lab}:signature-kept", body + d[sig_start:]
+                yield f"poison:key-halves:{lab}:zero-signature", body + b"\x00" * siglen
+                sig = k2.signature(body)
+                yield f"poison:key-halves:{lab}:signed-by-them", body + sig   # may be authentic for that key: judged as such
+
+    if hist == "key-bitflips":
+        for pos in range(23, key_end):
+            for b in range(8):
+                yield "poison:bitflip:auth", d[:pos] + bytes([d[pos] ^ (1 << b)]) + d[pos + 1:]
+    elif hist == "key-halves":
+        yield from halves()
+    elif hist == "other-mutations":
+        for cut in range(23, n):
+            yield "poison:truncate", d[:cut]
+        for pos in range(sig_start, n):
+            yield "poison:bitflip:signature", d[:pos] + bytes([d[pos] ^ (1 << (pos % 8))]) + d[pos + 1:]
+        yield "poison:zero-signature", d[:sig_start] + b"\x00" * siglen
+        yield "poison:signed-by-other-key:key-kept", d[:sig_start] + k2.signature(d[:sig_start])[:siglen].ljust(siglen, b"\0")
+    elif hist == "valid-poison-valid":
+        yield "valid|cold", d
+        yield from halves()
+        yield f"valid|after:{hist}", d_other
+        return
+    yield f"valid|after:{hist}", d
+
+
 def check_item(item: tuple) -> dict:
-    name, mid, curve = item
+    name, mid, curve = item[:3]
+    hist = item[3] if len(item) > 3 else None
     table = load_table()
+    cold = _cold_datagrams(item) if hist is not None else None      # fork before this process has a world of its own
     w, s_node, r_node, s_ov, r_ov, ks = _world(name, curve, _SEED)
     res = {"item": item, "evaluations": 0, "legal_entries": 0, "classes": {}, "violations": [], "valid_entered": False}
+    delivered: list = []
     try:
         kind = table[name][str(mid)]
-        d = valid_datagram(s_ov, r_ov, mid)
-        d_other = valid_datagram(s_ov, r_ov, mid)     # same kind, later global time => different payload/signature
+        if cold is not None:
+            d, d_other = cold
+        else:
+            d = valid_datagram(s_ov, r_ov, mid)
+            d_other = valid_datagram(s_ov, r_ov, mid)     # same kind, later global time => different payload/signature
         key, ok = ref_parse(d)
-        if not ok or key != s_node.my_peer.public_key.key_to_bin():
+        if not ok or (key != s_node.my_peer.public_key.key_to_bin()) != (cold is not None):
             res["violations"].append(("harness:valid-datagram-rejected-by-reference", f"{item}", None))
             return res
         src = s_node.address
@@ -285,9 +381,17 @@ def check_item(item: tuple) -> dict:
                 "other_prefixes": sorted({bytes([0, 2]) + cls.community_id for cls, _ in overlays.OVERLAYS.values()
                                           if getattr(cls, "community_id", None)} - {d[:22]})}
 
+        def rp(label: str, data: bytes) -> dict:
+            out = {"item": item, "label": label, "data": data.hex(), "seed": _SEED}
+            if hist is not None:
+                out["history"] = list(delivered)
+            return out
+
         def deliver(label: str, data: bytes) -> None:
             res["evaluations"] += 1
             res["classes"][label] = res["classes"].get(label, 0) + 1
+            if hist is not None:
+                delivered.append(data.hex())
             del ENTRIES[:]
             before = {p.public_key.key_to_bin() for p in r_ov.network.verified_peers}
             sent_before = r_node.endpoint.sent_count
@@ -308,12 +412,11 @@ def check_item(item: tuple) -> dict:
                     res["violations"].append((f"unauthentic-entry:{name}:{hname}:{label}",
                                               f"{name}.{hname} entered for a datagram that is not authentic "
                                               f"({label}); exception={exc!r}",
-                                              {"item": item, "label": label, "data": data.hex(), "seed": _SEED}))
+                                              rp(label, data)))
                 elif pkey != dkey:
                     res["violations"].append((f"wrong-identity:{name}:{hname}:{label}",
                                               f"{name}.{hname} got peer {pkey.hex()[:24]}.. but the datagram carries "
-                                              f"{dkey.hex()[:24]}..", {"item": item, "label": label, "data": data.hex(),
-                                                                       "seed": _SEED}))
+                                              f"{dkey.hex()[:24]}..", rp(label, data)))
                 else:
                     res["legal_entries"] += 1
             after = {p.public_key.key_to_bin() for p in r_ov.network.verified_peers}
@@ -322,12 +425,11 @@ def check_item(item: tuple) -> dict:
                 res["violations"].append((f"verified-peer-without-authentication:{name}:{label}",
                                           f"{name}: verified_peers grew by {[g.hex()[:24] for g in grown]} after a "
                                           f"datagram ({label}) whose authentic key is {dkey.hex()[:24] if authentic and dkey else None}",
-                                          {"item": item, "label": label, "data": data.hex(), "seed": _SEED}))
+                                          rp(label, data)))
             if target_kind == "self-verifying" and not authentic and r_node.endpoint.sent_count != sent_before:
                 res["violations"].append((f"response-to-unauthentic:{name}:{label}",
                                           f"{name}: self-verifying handler for id {data[22]} answered a datagram that is "
-                                          f"not authentic ({label})", {"item": item, "label": label, "data": data.hex(),
-                                                                       "seed": _SEED}))
+                                          f"not authentic ({label})", rp(label, data)))
             # keep the receiver's state small: forget what valid variants taught it
             if grown:
                 for p in list(r_ov.network.verified_peers):
@@ -335,6 +437,20 @@ def check_item(item: tuple) -> dict:
                         r_ov.network.remove_peer(p)
             del w.inflight[:]
 
+        if hist is not None:
+            # cold-key histories: whatever unauthentic traffic named (parts of) this key before, the first valid
+            # datagram of its owner must be attributed to exactly the key it carries
+            for label, m in cold_history(hist, d, d_other, ctxt):
+                before_legal = res["legal_entries"]
+                deliver(label, m)
+                if label.startswith("valid") and kind == "signed" and res["legal_entries"] == before_legal \
+                        and not res["violations"]:
+                    res["violations"].append((f"valid-not-handled-after-history:{name}:{hist}",
+                                              f"{name} id {mid}: the valid datagram ({label}) did not reach its handler "
+                                              f"after the history {hist}", rp(label, m)))
+            res["valid_entered"] = True
+            res["sample"] = {"overlay": name, "msg_id": mid, "history": hist, "curve": curve, "delivered": len(delivered)}
+            return res
         # the valid datagram itself must reach the handler (otherwise the whole item is vacuous)
         deliver("valid", d)
         if kind == "signed":
@@ -375,7 +491,7 @@ def check_item(item: tuple) -> dict:
                 res["violations"].append((f"unauthentic-datagram-rebinds-address:{name}:{label.split('|')[0]}",
                                           f"{name}: a datagram that is not authentic ({label}) from {elsewhere} changed the "
                                           f"addresses of the verified peer it names: {before_addrs} -> {dict(known.addresses)}",
-                                          {"item": item, "label": label, "data": data.hex(), "seed": _SEED}))
+                                          rp(label, data)))
             if known is not None:
                 known.addresses.clear()
                 known.addresses.update(before_addrs)
@@ -481,6 +597,13 @@ def run(ctx: core.Ctx) -> core.Report:
                     if c != "curve25519" and int(mid) in BASE_IDS and not (name == "Community" and int(mid) == 245):
                         continue
                     items.append((name, int(mid), c))
+    # cold-key histories (the sender's key has never been seen by this process before the history starts)
+    base_items = list(items)
+    for name, mid, c in base_items:
+        hists = COLD_HISTORIES if c == "curve25519" and (ctx.thorough or mid not in BASE_IDS or name == "Community") \
+            else ("control", "key-halves")
+        for h in hists:
+            items.append((name, mid, c, h))
     results = core.pmap(_work, items, ctx.jobs, chunk=1)
     evals = sum(r["evaluations"] for r in results)
     classes: dict = {}
@@ -500,7 +623,7 @@ def run(ctx: core.Ctx) -> core.Report:
         violations.append(core.Violation(key, what, rp))
     cov = {
         "evaluations": evals + multi["evaluations"],
-        "distinct_nontrivial": evals - len(results),
+        "distinct_nontrivial": evals - sum(v for k, v in classes.items() if k.startswith("valid")),
         "rule": "one evaluation = one datagram delivered through Endpoint.notify_listeners of a real receiver overlay; "
                 "per (overlay class, signed message id, sender curve) the valid datagram plus every mutation: each bit "
                 "of prefix/id/auth/signature (and one bit per payload byte in quick, all in thorough), every "
@@ -510,6 +633,11 @@ def run(ctx: core.Ctx) -> core.Report:
         "samples": [r["sample"] for r in results if "sample" in r][:4],
         "exhaustive": True,
         "items": len(items),
+        "cold_key_histories": {"items": len(items) - len(base_items), "histories": list(COLD_HISTORIES),
+                               "rule": "the valid datagram is built in a forked child with a key the checking process "
+                                       "never parsed; poisons (all key-field bit flips / key halves spliced with another "
+                                       "key's / truncations+signature mutations / valid-poison-valid) precede it; the "
+                                       "valid datagram must enter with exactly its key"},
         "mutation_classes": classes,
         "legal_entries_observed": legal + multi["legal_entries"],
         "replay_into_other_overlays": multi["evaluations"],
@@ -532,10 +660,22 @@ def replay(ctx: core.Ctx, data) -> list:  # noqa: ANN001
     if data.get("replay-multi"):
         return [core.Violation(k, w) for k, w, _ in check_replay_into_others(_SEED)["violations"]]
     item = tuple(data["item"])
-    name, mid, curve = item
+    name, mid, curve = item[:3]
     w, s_node, r_node, s_ov, r_ov, ks = _world(name, curve, _SEED)
     try:
         raw = bytes.fromhex(data["data"])
+        for k in ks[1:3]:     # the process state check_item has at this point: the substitute keys have been parsed
+            fixtures.private_key(k, curve).pub().key_to_bin()
+        for h in data.get("history", [])[:-1]:      # cold-key history: everything delivered before, in order
+            known = set(r_ov.network.verified_peers)
+            try:
+                r_node.endpoint.notify_listeners((s_node.address, bytes.fromhex(h)))
+                w.loop.settle()
+            except Exception:  # noqa: BLE001, S110
+                pass
+            for p in set(r_ov.network.verified_peers) - known:
+                r_ov.network.remove_peer(p)
+            del w.inflight[:]
         del ENTRIES[:]
         before = {p.public_key.key_to_bin() for p in r_ov.network.verified_peers}
         try:
